@@ -84,4 +84,78 @@ CanonNumber(lit, cri, crf) ==
          ELSE IF nf.d = <<>> THEN <<48>>
          ELSE IF Decidable(nf) THEN EcmaLayout(nf.neg, nf.d, nf.n)
          ELSE <<63>>
+
+(***************************************************************************)
+(* Integers.  A JSON number converts to a Go integer only if it is         *)
+(* spelled as an integer: optional minus, digits without leading zeros, no *)
+(* fraction, no exponent.  Unsigned destinations refuse any minus sign     *)
+(* (also -0).  Ranges are decided on digit strings.                        *)
+(***************************************************************************)
+IsIntSyntax(lit) ==
+    LET body == IF lit # <<>> /\ lit[1] = 45 THEN Tail(lit) ELSE lit IN
+    /\ body # <<>>
+    /\ \A i \in 1..Len(body) : IsDigit(body[i])
+    /\ (Len(body) > 1 => body[1] # 48)
+
+\* magnitude digits (as numbers 0..9) of an integer literal
+MagOf(lit) == LET body == IF lit[1] = 45 THEN Tail(lit) ELSE lit IN [i \in 1..Len(body) |-> body[i] - 48]
+
+\* comparison of magnitudes without leading zeros
+MagLess(a, b) == Len(a) < Len(b) \/ (Len(a) = Len(b) /\ \E i \in 1..Len(a) : a[i] < b[i] /\ \A j \in 1..(i - 1) : a[j] = b[j])
+MagLeq(a, b) == a = b \/ MagLess(a, b)
+
+Pow2(bits) == CASE bits = 7 -> <<1, 2, 8>>
+                [] bits = 8 -> <<2, 5, 6>>
+                [] bits = 15 -> <<3, 2, 7, 6, 8>>
+                [] bits = 16 -> <<6, 5, 5, 3, 6>>
+                [] bits = 31 -> <<2, 1, 4, 7, 4, 8, 3, 6, 4, 8>>
+                [] bits = 32 -> <<4, 2, 9, 4, 9, 6, 7, 2, 9, 6>>
+                [] bits = 63 -> <<9, 2, 2, 3, 3, 7, 2, 0, 3, 6, 8, 5, 4, 7, 7, 5, 8, 0, 8>>
+                [] bits = 64 -> <<1, 8, 4, 4, 6, 7, 4, 4, 0, 7, 3, 7, 0, 9, 5, 5, 1, 6, 1, 6>>
+
+\* value in range of an integer type: signed: -2^(b-1) <= v <= 2^(b-1)-1; unsigned: 0 <= v <= 2^b-1
+InRange(neg, mag, bits, signed) ==
+    IF signed THEN (IF neg /\ mag # <<0>> THEN MagLeq(mag, Pow2(bits - 1)) ELSE MagLess(mag, Pow2(bits - 1)))
+    ELSE MagLess(mag, Pow2(bits))
+
+\* unmarshaling the literal into an integer destination succeeds
+IntAccepts(lit, bits, signed) ==
+    /\ IsIntSyntax(lit)
+    /\ (signed \/ lit[1] # 45)
+    /\ InRange(lit[1] = 45, MagOf(lit), bits, signed)
+
+(***************************************************************************)
+(* Token.Int / Token.Uint on a number read from JSON text: the value and   *)
+(* the class of error.  A number that is not spelled as a (signed /        *)
+(* unsigned) integer is a syntax error and yields its truncation toward    *)
+(* zero, saturated; an integer outside the 64-bit range is a range error   *)
+(* and yields the nearest bound.  Values are [neg, mag].                   *)
+(***************************************************************************)
+\* integer part (truncation toward zero) of the normal form, as magnitude digits
+TruncMag(nf) == IF nf.d = <<>> \/ nf.n <= 0 THEN <<0>>
+                ELSE IF nf.n >= Len(nf.d) THEN nf.d \o [i \in 1..(nf.n - Len(nf.d)) |-> 0]
+                ELSE SubSeq(nf.d, 1, nf.n)
+
+MaxI64 == <<9, 2, 2, 3, 3, 7, 2, 0, 3, 6, 8, 5, 4, 7, 7, 5, 8, 0, 7>>
+MaxU64 == <<1, 8, 4, 4, 6, 7, 4, 4, 0, 7, 3, 7, 0, 9, 5, 5, 1, 6, 1, 5>>
+
+SatInt(neg, mag) == IF neg /\ mag # <<0>> THEN (IF MagLeq(mag, Pow2(63)) THEN [neg |-> TRUE, mag |-> mag] ELSE [neg |-> TRUE, mag |-> Pow2(63)])
+                    ELSE IF MagLess(mag, Pow2(63)) THEN [neg |-> FALSE, mag |-> mag] ELSE [neg |-> FALSE, mag |-> MaxI64]
+SatUint(neg, mag) == IF neg THEN [neg |-> FALSE, mag |-> <<0>>]
+                     ELSE IF MagLess(mag, Pow2(64)) THEN [neg |-> FALSE, mag |-> mag] ELSE [neg |-> FALSE, mag |-> MaxU64]
+
+\* the literal is small enough for the truncation to be exact in the implementation's float64 detour
+TruncDecidable(nf) == Len(nf.d) <= 15 \/ nf.n > 25
+
+TokenInt(lit) ==
+    IF IsIntSyntax(lit)
+    THEN LET neg == lit[1] = 45  mag == MagOf(lit) IN
+         [v |-> SatInt(neg, mag), err |-> IF InRange(neg, mag, 64, TRUE) THEN "nil" ELSE "range"]
+    ELSE LET nf == Normal(lit) IN [v |-> SatInt(nf.neg, TruncMag(nf)), err |-> "syntax"]
+
+TokenUint(lit) ==
+    IF IsIntSyntax(lit) /\ lit[1] # 45
+    THEN LET mag == MagOf(lit) IN
+         [v |-> SatUint(FALSE, mag), err |-> IF InRange(FALSE, mag, 64, FALSE) THEN "nil" ELSE "range"]
+    ELSE LET nf == Normal(lit) IN [v |-> SatUint(nf.neg \/ lit[1] = 45, TruncMag(nf)), err |-> "syntax"]
 =============================================================================
